@@ -10,7 +10,8 @@ TRUSTED = [
     "mergeWithObject (src/types/json.cpp, include/occa/types/json.{hpp,tpp}) and lex::skipTo into coq/C25/Model.v (on the JSON tree "
     "of coq/C24/Model.v), tied by the differential run of this check",
     "extraction (ExtrOcamlBasic only) + extract/C25/driver.ml + extract/zutil.ml",
-    "drivers/C25.cpp (public API only: operator[], get<json>, has, size, set, remove, +=)",
+    "drivers/C25.cpp (public API: operator[], typed operator=, get<json>, has, size, set, remove, +=; reads the public "
+    "members type/value_ to dump hidden storage)",
     "g++ 12 / ASan+UBSan as the observer of memory errors in the implementation",
 ]
 
@@ -19,10 +20,14 @@ META = dict(
           "+=, j[p] +=, touch (non-const j[p])} over arbitrary byte-string paths and arbitrary JSON values, the modelled cursor-walking "
           "C++ functions produce exactly the observations and (through `abs`) the final state of a nested-dictionary specification "
           "written on key lists (refinement, unbounded histories, explicit fuel = path length + 1 shown sufficient); reads never "
-          "change the value. The model is tied to json.cpp by running the extracted model and the real class on the same histories "
-          "and comparing every observation and the final value.",
+          "change the value. A second model carries the hidden storage of every value (type tag + number/string/array/object "
+          "members that survive the typed assignments j = 5 / \"s\" / jsonArray / jsonObject) and is proved to simulate the "
+          "first one through `vis`, using each walker's `type == object_` guard. The model is tied to json.cpp by running the "
+          "extracted hidden-storage model and the real class on the same histories and comparing every observation, the final "
+          "value and every hidden member of every node.",
     note="Trusted: Coq kernel; the hand model (tie is differential, seeded); extraction; drivers. The non-const operator[] is "
-         "specified as a write (it creates the path it names); += is specified for object or undefined right-hand sides.",
+         "specified as a write (it creates the path it names); += is specified for object or undefined right-hand sides. "
+         "Known finding until fixes/C25-3 is applied: json::set resurrects stale entries (theorem partial under run_safe).",
     technique="Coq refinement proof (simulation of path walkers by structural recursion on key lists) + extracted-model/"
               "implementation differential correspondence",
     design_ref="DESIGN.md section 5, C25")
